@@ -341,6 +341,33 @@ func (p *policy) disCommand() string {
 			d := r.Range(-3, 3)
 			from, to = fmt.Sprint(f), fmt.Sprint(f+d)
 		}
+		if r.Chance(1, 4) && p.s != nil {
+			// between two lines that read the same (with others in between)
+			rows := freshListing(p.s.ld.Code)
+			var pairs [][2]int
+			for i := range rows {
+				for j := i + 2; j <= i+4 && j < len(rows); j++ {
+					if rows[i].Kind == "instr" && rows[j].Kind == "instr" && rows[i].Text == rows[j].Text && rows[i].Bytes == rows[j].Bytes {
+						same := true
+						for k := i; k <= j; k++ {
+							if rows[k].Kind != "instr" {
+								same = false
+							}
+						}
+						if same {
+							pairs = append(pairs, [2]int{i, j})
+						}
+					}
+				}
+			}
+			if len(pairs) > 0 {
+				pr := pairs[r.Intn(len(pairs))]
+				if r.Bool() {
+					pr[0], pr[1] = pr[1], pr[0]
+				}
+				from, to = fmt.Sprint(pr[0]), fmt.Sprint(pr[1])
+			}
+		}
 		if r.Chance(1, 4) && p.s != nil { // block move: two header lines
 			var hdr []int
 			for i, row := range freshListing(p.s.ld.Code) {
